@@ -128,6 +128,7 @@ fn go<V: Render>(c: &Sexp, mk: impl Fn(i64, i64) -> V + Copy) -> Sexp {
 pub fn run(c: &Sexp) -> Sexp {
     let t = |k: i64, g: i64, j: i64| format!("{k}.{g}.{j}");
     match c.at(0).num() {
+        11 | 12 => crate::c11for::run(c),
         1 => go(c, |k, g| t(k, g, 0)),
         2 => go(c, |k, g| (t(k, g, 0), t(k, g, 1))),
         3 => go(c, |k, g| (t(k, g, 0), span().child(t(k, g, 1)), t(k, g, 2))),
